@@ -219,7 +219,7 @@ def check_mirror_if(ctx, rule, fn, pairs, label, only_left_tests=True):
                     handled = True
             if not handled and ee.kind != "IfStmt":
                 m = re.search(r"get_left\(", cs)
-                if m and "==" in cs and "&&" not in cs and "||" not in cs:
+                if m and ("==" in cs or "!=" in cs) and "&&" not in cs and "||" not in cs:      # (either polarity: mirror images are mutual)
                     a, b = ser.stmt(n.child("then")), ser.stmt(e)
                     n_pairs += 1
                     ok = mirror(a, pairs) == b
